@@ -191,6 +191,21 @@ func atomicPoint(p unsafe.Pointer) (*World, *Thread, *obj) {
 	return w, t, o
 }
 
+// AtomicDo runs f as one atomic operation on the object identified by p, with a scheduling
+// point in front of it. f reports whether it wrote; the shims build further atomic types
+// (atomic.Pointer, atomic.Value, sync.Map, sync.Once) on it.
+func AtomicDo(p unsafe.Pointer, f func() (write bool, result uint64)) {
+	w, t, o := atomicPoint(p)
+	wr, res := f()
+	if w != nil {
+		if wr {
+			w.event(t, KStore, o, true, res)
+		} else {
+			w.event(t, KLoad, o, false, res)
+		}
+	}
+}
+
 func LoadInt32(p *int32) int32 {
 	w, t, o := atomicPoint(unsafe.Pointer(p))
 	v := *p
